@@ -4,7 +4,7 @@
 import Simpleline.Lemmas.InputFlightInv
 import Simpleline.Lemmas.InputHandoff
 
-namespace Simpleline
+namespace Simpleline.Input
 
 theorem startRequest_refuse (c : Cfg) (ih : Nat) (requester : Src) (text : Str)
     (hs : c.A.inputStack ≠ []) (hk : (c.A.ihs.getD ih default).skip = false) :
@@ -93,36 +93,52 @@ theorem inputReady_result (P : Prog) (c : Cfg) (n : Nat) (s : Sig) (rest : List 
   · rw [if_pos rfl]
     have key : (listSet c.A.ihs n IHandler.failed).getD n default = (c.A.ihs.getD n default).failed := by
       rw [listSet_getD, if_pos ⟨rfl, hn⟩]
-    refine ⟨?_, ?_, ?_, ?_, rfl, rfl, rfl, fun h => by cases h, fun _ => ⟨?_, ?_, rfl⟩⟩
-    · show ((listSet c.A.ihs n IHandler.failed).getD n default).received = true
+    refine ⟨?ga, ?gb, ?gc, ?gd, rfl, rfl, rfl, ?ge, ?gf⟩
+    case ga =>
+      show ((listSet c.A.ihs n IHandler.failed).getD n default).received = true
       rw [key]; rfl
-    · show ((listSet c.A.ihs n IHandler.failed).getD n default).ok = false
+    case gb =>
+      show ((listSet c.A.ihs n IHandler.failed).getD n default).ok = false
       rw [key]; rfl
-    · show ((listSet c.A.ihs n IHandler.failed).getD n default).source = _
+    case gc =>
+      show ((listSet c.A.ihs n IHandler.failed).getD n default).source = _
       rw [key]; rfl
-    · intro m hm
+    case gd =>
+      intro m hm
       show (listSet c.A.ihs n IHandler.failed).getD m default = _
       rw [listSet_getD, if_neg (hne m hm)]
-    · show ((listSet c.A.ihs n IHandler.failed).getD n default).value = _
-      rw [key]; rfl
-    · show ((listSet c.A.ihs n IHandler.failed).getD n default).cb = _
-      rw [key]; rfl
+    case ge => intro h; cases h
+    case gf =>
+      intro _
+      refine ⟨?_, ?_, rfl⟩
+      · show ((listSet c.A.ihs n IHandler.failed).getD n default).value = _
+        rw [key]; rfl
+      · show ((listSet c.A.ihs n IHandler.failed).getD n default).cb = _
+        rw [key]; rfl
   · rw [if_neg (by simp)]
     have key : (listSet c.A.ihs n (·.answered s.line)).getD n default = (c.A.ihs.getD n default).answered s.line := by
       rw [listSet_getD, if_pos ⟨rfl, hn⟩]
-    refine ⟨?_, ?_, ?_, ?_, rfl, rfl, rfl, fun _ => ⟨?_, ?_, rfl⟩, fun h => by cases h⟩
-    · show ((listSet c.A.ihs n (·.answered s.line)).getD n default).received = true
+    refine ⟨?ga, ?gb, ?gc, ?gd, rfl, rfl, rfl, ?ge, ?gf⟩
+    case ga =>
+      show ((listSet c.A.ihs n (·.answered s.line)).getD n default).received = true
       rw [key]; rfl
-    · show ((listSet c.A.ihs n (·.answered s.line)).getD n default).ok = true
+    case gb =>
+      show ((listSet c.A.ihs n (·.answered s.line)).getD n default).ok = true
       rw [key]; rfl
-    · show ((listSet c.A.ihs n (·.answered s.line)).getD n default).source = _
+    case gc =>
+      show ((listSet c.A.ihs n (·.answered s.line)).getD n default).source = _
       rw [key]; rfl
-    · intro m hm
+    case gd =>
+      intro m hm
       show (listSet c.A.ihs n (·.answered s.line)).getD m default = _
       rw [listSet_getD, if_neg (hne m hm)]
-    · show ((listSet c.A.ihs n (·.answered s.line)).getD n default).value = _
-      rw [key]; rfl
-    · show ((listSet c.A.ihs n (·.answered s.line)).getD n default).cb = _
-      rw [key]; rfl
+    case gf => intro h; cases h
+    case ge =>
+      intro _
+      refine ⟨?_, ?_, rfl⟩
+      · show ((listSet c.A.ihs n (·.answered s.line)).getD n default).value = _
+        rw [key]; rfl
+      · show ((listSet c.A.ihs n (·.answered s.line)).getD n default).cb = _
+        rw [key]; rfl
 
-end Simpleline
+end Simpleline.Input
